@@ -182,19 +182,40 @@ func keyWiseCopy(info *types.Info, rs *ast.RangeStmt) string {
 			e = unparen(u.X)
 		}
 		c, ok := e.(*ast.CallExpr)
-		if !ok || len(c.Args) != 1 || objOf(info, c.Args[0]) != k {
+		if !ok {
 			return false
 		}
-		if cal := calleeOf(info, c); cal != nil {
-			return cal.Name() == "Has"
+		if len(c.Args) == 1 && objOf(info, c.Args[0]) == k {
+			if cal := calleeOf(info, c); cal != nil {
+				return cal.Name() == "Has"
+			}
 		}
-		// a predicate value (func(key) bool) handed to the function
+		// a predicate value handed to the function (func(key) bool, or func(ctx, key) bool: "is this name known
+		// to that context"): the key once among its arguments, the others plain variables that are not the value
+		if calleeOf(info, c) != nil {
+			return false
+		}
 		tv, ok := info.Types[c.Fun]
 		if !ok {
 			return false
 		}
 		sig, ok := tv.Type.Underlying().(*types.Signature)
-		return ok && sig.Params().Len() == 1 && sig.Results().Len() == 1 && isBasicKind(sig.Results().At(0).Type(), types.Bool)
+		if !ok || sig.Results().Len() != 1 || !isBasicKind(sig.Results().At(0).Type(), types.Bool) || len(c.Args) == 0 || len(c.Args) > 2 {
+			return false
+		}
+		nKey := 0
+		for _, a := range c.Args {
+			o := objOf(info, a)
+			switch {
+			case o == nil:
+				return false
+			case o == k:
+				nKey++
+			case v != nil && o == v:
+				return false
+			}
+		}
+		return nKey == 1
 	}
 	for len(body) > 1 {
 		ifs, ok := body[0].(*ast.IfStmt)
